@@ -214,7 +214,7 @@ def run(tier):
                       else "MCMerge[MBug=pass2_all] (pinned code; self-test, must fail)", res, verdict, expect=expect)
     for tb, inv, expect in (("", ["HeadsAgree", "ShortAgree", "BlocksAgree"], "ok"), ("short_remark_exact", ["ShortAgree"], "violated"),
                             ("unranged_counter", ["ShortAgree"], "violated")):
-        cfg = vlib.make_cfg(work0 / f"MCTools_{tb or 'abs'}.cfg", spec="Spec", constants={"MaxB": 2, "MaxI": 1, "TBug": f'"{tb}"'}, invariants=inv)
+        cfg = vlib.make_cfg(work0 / f"MCTools_{tb or 'abs'}.cfg", spec="Spec", constants={"MaxB": 2, "MaxI": 1 if tier == "quick" or tb else 2, "TBug": f'"{tb}"'}, invariants=inv)
         res, verdict = vlib.model_check("MCTools", cfg, workers=4, timeout=600)
         chk.add_model("MCTools (cdns-items / cdns-blocks selection; beyond the listed properties)" if tb == ""
                       else f"MCTools[TBug={tb}] ({'pinned remark rule; ' if tb == 'short_remark_exact' else ''}self-test, must fail)", res, verdict, expect=expect)
